@@ -30,7 +30,7 @@ BLANK_EXTS = [".txt", ".csv", ".tsv", ".md", ".json"]      # extractors that acc
 
 
 def build_members(seed: int, n: int, corrupt: int | None, with_noise: bool, prefix: str = "", dict_size: int | None = None, blanks: str | None = None,
-                  updates: str | None = None, repetitive: str | None = None):
+                  updates: str | None = None, repetitive: str | None = None, magic: str | None = None):
     """-> (members for archives.build, eligible list [(name, data)], corrupted member name or None)
 
     ``prefix``: every member name starts with it ("./" = what `tar -czf x.tgz .`, `zip -r x.zip .` and 7z with ./ arguments write; the
@@ -42,7 +42,9 @@ def build_members(seed: int, n: int, corrupt: int | None, with_noise: bool, pref
     zipfile do (the archive then repeats a name; every occurrence is a member with bytes of its own); "renamed" is the control twin.
     ``repetitive``: "run" adds one or two very repetitive members of a few hundred KiB (the CSV export of a nearly empty sheet, a log of
     identical lines, one repeated character: deflate / LZMA shrink them 500:1 and more, so they dominate the archive's overall ratio although
-    every size stays far below the per-member limit); "plain" is the control twin (the same members with a few KiB of ordinary text)."""
+    every size stays far below the per-member limit); "plain" is the control twin (the same members with a few KiB of ordinary text).
+    ``magic``: "BZ" puts a member first whose *name* begins with the two magic bytes of a compressed stream that are printable ("BZ", bzip2) -
+    in an uncompressed TAR the first member's name is the first thing in the file; "plain" is the control twin (the name prefixed with x)."""
     from vlib.gen import docs, mutate
     rng = random.Random(f"c10:{seed}")
     members, eligible = [], []
@@ -133,7 +135,9 @@ def build_members(seed: int, n: int, corrupt: int | None, with_noise: bool, pref
             elif k < 0.85:
                 members.append({"name": f"{d}tool{i}.exe", "data": b"MZ\x90\x00" + b"qr00003z", "type": "file"})
             else:
-                members.append({"name": f"{d}inner{i}.zip", "data": archives.build("zip-stored", [{"name": "x.txt", "data": b"qr00004z nested\n"}]), "type": "file"})
+                # a nested archive of every documented kind: a readable archive of the type its name announces, with a supported file inside
+                nm = f"{d}inner{i}" + rng.choice([".zip", ".tar", ".tar.gz", ".tgz", ".tar.bz2", ".tbz2", ".tar.xz", ".txz", ".7z", ".TAR.GZ", ".Tar.Xz", ".ZIP"])
+                members.append({"name": nm, "data": archives.nested_for(nm, [{"name": "in/x.txt", "data": b"qr00004z nested\n"}]), "type": "file"})
     if repetitive:
         rr = random.Random(f"c10r:{seed}")
         for k in range(rr.randint(1, 2)):
@@ -147,6 +151,12 @@ def build_members(seed: int, n: int, corrupt: int | None, with_noise: bool, pref
             # eligible follows archive order: insert behind the eligible members that precede position ``at``
             before = {m["name"] for m in members[:at]}
             eligible.insert(sum(1 for en, _ in eligible if en in before), (nm, body))
+    if magic and not prefix:
+        rm = random.Random(f"c10m:{seed}")
+        nm = ("BZ" if magic == "BZ" else "xBZ") + rm.choice(["-Bericht.txt", "h91-report.md", "IP.csv", " 2024 plan.txt", "/inside.txt"])
+        body = b"qr00009z first member\n"
+        members.insert(0, {"name": nm, "data": body, "type": "file"})
+        eligible.insert(0, (nm, body))
     if updates and fmts:
         ru = random.Random(f"c10u:{seed}")
         for j, name in enumerate(ru.sample(sorted(fmts), min(len(fmts), ru.randint(1, 2)))):
@@ -170,7 +180,19 @@ def work(case):
     blanks = "empty" if case.get("blanks") else None
     upd = "same-name" if case.get("updates") else None
     rep_ = "run" if case.get("repetitive") else None
-    out = _run(case, case.get("prefix", ""), case.get("dict"), blanks, updates=upd, repetitive=rep_)
+    mg = "BZ" if case.get("magicname") else None
+    sub = not case.get("nosub")
+    out = _run(case, case.get("prefix", ""), case.get("dict"), blanks, updates=upd, repetitive=rep_, magic=mg, substreams=sub)
+    if out["problems"] and mg:
+        # control twin for the first member's name alone
+        out["magic_twin_problems"] = sorted({p["sym"] for p in _run(case, case.get("prefix", ""), case.get("dict"), blanks, updates=upd, repetitive=rep_, magic="plain", substreams=sub)["problems"]})
+        if not out["magic_twin_problems"]:
+            return out
+    if out["problems"] and not sub:
+        # control twin for the missing SubStreamsInfo section alone
+        out["nosub_twin_problems"] = sorted({p["sym"] for p in _run(case, case.get("prefix", ""), case.get("dict"), blanks, updates=upd, repetitive=rep_, magic=mg, substreams=True)["problems"]})
+        if not out["nosub_twin_problems"]:
+            return out
     if out["problems"] and rep_:
         # control twin for the repetitive members alone: the same members holding a few KiB of ordinary text
         out["repetitive_twin_problems"] = sorted({p["sym"] for p in _run(case, case.get("prefix", ""), case.get("dict"), blanks, updates=upd, repetitive="plain")["problems"]})
@@ -186,12 +208,12 @@ def work(case):
     return out
 
 
-def _run(case, prefix, dict_size, blanks=None, twin=False, updates=None, repetitive=None):
+def _run(case, prefix, dict_size, blanks=None, twin=False, updates=None, repetitive=None, magic=None, substreams=True):
     from vlib import obs
     from sharepoint2text.parsing import router
-    members, eligible, corrupted = build_members(case["seed"], case["n"], case.get("corrupt"), case.get("noise", True), prefix, dict_size, blanks, updates, repetitive)
+    members, eligible, corrupted = build_members(case["seed"], case["n"], case.get("corrupt"), case.get("noise", True), prefix, dict_size, blanks, updates, repetitive, magic)
     layout = case["layout"]
-    data = archives.build(layout, members, dict_size=None if twin else dict_size)
+    data = archives.build(layout, members, dict_size=None if twin else dict_size, substreams=substreams)
     apath = "dir/arch" + archives.ext_of(layout)
     out = {"layout": layout, "n_members": len(members), "n_eligible": len(eligible), "size": len(data), "problems": []}
     # expected: each eligible member extracted on its own
@@ -290,6 +312,10 @@ def gen_cases(run):
                 case["updates"] = True          # newer versions of earlier members appended under the same names (tar -u / -r, zipfile append)
             if r % 6 == 4 or (layout.startswith("zip") and r % 3 == 0):
                 case["repetitive"] = True       # a member that compresses several hundred to one
+            if r % 5 == 2 and "prefix" not in case and n:
+                case["magicname"] = True        # the first member's name begins with the printable magic of a compressed stream
+            if layout.startswith("7z") and "per-file" in layout and r % 4 == 3:
+                case["nosub"] = True            # 7z without SubStreamsInfo (legal with one file per folder: each file is its folder's whole output)
             if r % 4 == 1:
                 case["blanks"] = True           # zero-length members of the plain-text family, next to directories
             if r % 6 == 2:
@@ -335,6 +361,16 @@ def main(run):
             feat = "empty-member"                       # the twin whose empty members hold two bytes is clean
             if case["layout"].startswith("7z"):
                 lc = "7z"                               # one mechanism for every coder / folder layout
+        if case.get("magicname"):
+            run.count(("tar_uncompressed" if archives.family(case["layout"]) == "tar" else "other") + "_archives_whose_first_member_name_starts_with_BZ")
+            if ob["problems"] and ob.get("magic_twin_problems") == []:
+                feat = "first-member-name-starts-with-BZ"
+                lc = archives.family(case["layout"]) if not case["layout"].startswith("7z") else "7z"      # header format is irrelevant
+        if case.get("nosub"):
+            run.count("7z_archives_without_substreams_info")
+            if ob["problems"] and ob.get("nosub_twin_problems") == [] and feat != "first-member-name-starts-with-BZ":
+                feat, lc = "no-substreams-info", "7z"
+                ob["problems"] = [{"sym": "members-empty-or-missing", "detail": "; ".join(p["detail"] for p in ob["problems"][:3])}]      # one mechanism, one symptom
         if case.get("repetitive"):
             run.count(("zip_deflated" if case["layout"] == "zip-deflated" else "7z" if case["layout"].startswith("7z") else "other") + "_archives_with_highly_compressible_member")
             if feat == "clean" and ob["problems"] and ob.get("repetitive_twin_problems") == []:
@@ -359,7 +395,9 @@ def main(run):
     for fmt in ("pax", "gnu", "ustar"):     # every TAR header format must have been read back uncompressed (detection by the tar magic) and compressed
         run.require(f"tar_{fmt}_uncompressed_archives", sum(n for l, n in per_layout.items() if archives.family(l) == "tar" and archives.tar_format(l) == fmt), 5)
         run.require(f"tar_{fmt}_compressed_archives", sum(n for l, n in per_layout.items() if archives.family(l).startswith("tar.") and archives.tar_format(l) == fmt), 15)
-    for k, lo in (("zip_deflated_archives_with_highly_compressible_member", run.n(10, 100)), ("7z_archives_with_highly_compressible_member", run.n(60, 600)),
+    for k, lo in (("tar_uncompressed_archives_whose_first_member_name_starts_with_BZ", run.n(6, 60)), ("other_archives_whose_first_member_name_starts_with_BZ", run.n(60, 600)),
+                  ("7z_archives_without_substreams_info", run.n(20, 200)),
+                  ("zip_deflated_archives_with_highly_compressible_member", run.n(10, 100)), ("7z_archives_with_highly_compressible_member", run.n(60, 600)),
                   ("other_archives_with_highly_compressible_member", run.n(30, 300)),
                   ("tar_archives_with_repeated_member_names", run.n(25, 250)), ("zip_archives_with_repeated_member_names", run.n(6, 60)),
                   ("7z_archives_with_empty_text_members", run.n(60, 600)), ("zip_stored_archives_with_empty_text_members", run.n(5, 50)), ("other_archives_with_empty_text_members", run.n(25, 250)),
